@@ -18,7 +18,9 @@ def main():
             r = subprocess.run(["timeout", "1500", "/verif/check", p, "--tier", tier], capture_output=True, text=True, cwd="/verif",
                                env=dict(os.environ, VERIF_REPO=wt, VERIF_EVID="/tmp/mut-evid"))
             lines = [l for l in r.stdout.splitlines() if l.startswith(("VIOLATION", "KNOWN", "OK", "INCONCLUSIVE", "DIVERGENCE"))]
-            print("%s on %s: rc=%d %s (%ds)" % (os.path.basename(d), p, r.returncode, [l[:160] for l in lines[:2]], time.time() - t0), flush=True)
+            lines.sort(key=lambda l: 0 if l.startswith("VIOLATION") else 1)
+            nv = sum(1 for l in lines if l.startswith("VIOLATION"))
+            print("%s on %s: rc=%d nviol=%d %s (%ds)" % (os.path.basename(d), p, r.returncode, nv, [l[:160] for l in lines[:2]], time.time() - t0), flush=True)
     finally:
         subprocess.run("git -C /repo worktree remove --force %s" % wt, shell=True)
         shutil.rmtree(wt, ignore_errors=True)
